@@ -374,6 +374,30 @@ func genC03(ref core.CaseRef, r *rand.Rand) *c03Case {
 	if c.Mode == "all" {
 		r.Shuffle(len(c.Items), func(i, j int) { c.Items[i], c.Items[j] = c.Items[j], c.Items[i] })
 	}
+	if r.Intn(6) == 0 {
+		// an aggregate over an expression is given the name of an input column that another item aggregates
+		// as a bare column: the other item still reads the input column
+		for _, it := range c.Items {
+			if it.Shape != "expr" || it.Arg2 != "" {
+				continue
+			}
+			for _, other := range c.Items {
+				if other != it && other.Shape == "bare" && (other.Arg == "v" || other.Arg == "w") && !strings.Contains(it.Arg, other.Arg) {
+					taken := false
+					for _, col := range c.Cols {
+						taken = taken || col == other.Arg
+					}
+					if !taken {
+						it.Alias = other.Arg
+					}
+					break
+				}
+			}
+			if !strings.HasPrefix(it.Alias, "r") {
+				break
+			}
+		}
+	}
 	sel := append([]string{}, c.Cols...)
 	for _, it := range c.Items {
 		sel = append(sel, it.SQL+" AS "+it.Alias)
